@@ -117,20 +117,28 @@ class IndentAcc:
         self.samples = []
         self.maxlen = 0
         self.harness = []
+        self.flagged_lines = []   # generated texts with the known construct, driven at the end
+        self.flagged_generated = 0
+        self.flagged_driven = 0
 
 
-def indent_drive(ctx, binp, acc, prints, label, sample, kmax):
+def indent_drive(ctx, binp, acc, prints, label, sample, kmax, flagged_too=False):
     """prints: JSON lines {"t":..,"k":..,"e":..} from TLC.  Runs the harness,
-    keeps the rows that TLC must judge."""
-    d = ctx.subdir("ind-" + label)
+    keeps the rows that TLC must judge.  Texts with the known construct are
+    put aside (acc.flagged_lines) unless flagged_too."""
+    d = ctx.subdir("ind-" + label.replace("+", "_"))
     path = os.path.join(d, "texts.ndjson")
     n = nk = 0
     with open(path, "w") as f:
         for line in prints:
-            # dedupe on the text (the "t" member comes first in ToJson's output order? do not rely on it)
-            if line in acc.seen:
-                continue
-            acc.seen.add(line)
+            if not flagged_too:
+                if line in acc.seen:
+                    continue
+                acc.seen.add(line)
+                if '"k":true' in line:
+                    acc.flagged_lines.append(line)
+                    acc.flagged_generated += 1
+                    continue
             f.write(line + "\n")
             n += 1
             if '"k":true' in line:
@@ -210,12 +218,18 @@ def indent_part(ctx, binp, cov):
     # design-level: the generator's incremental state equals Lex(text)
     run_tlc(ctx, "CLexical", clex_cfg("consistent", {"cmt": 5, "cmt2": 4, "str": 4, "pp": 5, "nest": 3, "all": 3}),
             "generator state = Lex(text)", timeout=1500)
+    # the committed witness of the known finding, with the generous watchdog and the 4x confirmation
+    wpath = os.path.join(VERIF, "findings", "C12-" + KEY_INDENT + ".json")
+    wit_state = None
+    if os.path.exists(wpath):
+        wit_state = indent_witness(ctx, binp, json.load(open(wpath)))
+    bug_present = bool(wit_state and wit_state["rejected_by_tlc"])
     if thorough:
         plan = [{"cmt": 9}, {"cmt2": 7}, {"str": 7}, {"pp": 6, "nest": 5}, {"all": 5}]
-        sample, kmax, simnum = 1500, 300, 4000
+        sample, kmax, simnum, kdrive = 1500, 300, 4000, 1200
     else:
-        plan = [{"cmt": 8, "cmt2": 6, "str": 6, "pp": 6, "nest": 4, "all": 4}]
-        sample, kmax, simnum = 1200, 200, 250
+        plan = [{"cmt": 8, "cmt2": 6, "str": 6, "pp": 5, "nest": 4, "all": 4}]
+        sample, kmax, simnum, kdrive = 1200, 150, 250, 150
     lens_all = {}
     for lens in plan:
         lens_all.update(lens)
@@ -231,6 +245,16 @@ def indent_part(ctx, binp, cov):
     indent_drive(ctx, binp, acc, tlc_json_prints(res["out"]), "simulate", sample // 2, kmax)
     sim_texts = acc.texts - before
     del res
+    # Texts with the known construct: while the committed witness still fails
+    # only some are driven (each costs a watchdog budget): the shortest ones
+    # and a seeded choice; once the witness passes, all of them are.
+    fl = sorted(acc.flagged_lines, key=lambda l: (len(l), l))
+    if bug_present and len(fl) > kdrive:
+        head, rest = fl[:kdrive // 3], fl[kdrive // 3:]
+        ctx.rng.shuffle(rest)
+        fl = head + rest[:kdrive - len(head)]
+    acc.flagged_driven = len(fl)
+    indent_drive(ctx, binp, acc, fl, "known-construct", sample // 4, kmax, flagged_too=True)
 
     rejected = indent_judge(ctx, acc)
     nviol = 0
@@ -248,16 +272,11 @@ def indent_part(ctx, binp, cov):
         what = "dumbindent.FormatBytes on the lexically closed text %r: CLexical!Judge says %s" % (text_str(t), v["verdict"])
         if ctx.violation(what, rep):
             nviol += 1
-    # the committed witness of the known finding, with the generous watchdog and the 4x confirmation
-    wpath = os.path.join(VERIF, "findings", "C12-" + KEY_INDENT + ".json")
-    wit_state = None
-    if os.path.exists(wpath):
-        w = json.load(open(wpath))
-        wit_state = indent_witness(ctx, binp, w)
     cov["indent"] = {
         "closed_texts_driven": acc.texts, "of_which_exhaustive": acc.texts - sim_texts, "of_which_simulated": sim_texts,
         "options_per_text": 3, "generator_states": gen_states, "profile_length_bounds": lens_all, "longest_text": acc.maxlen,
-        "texts_with_known_construct": acc.flagged, "known_construct_texts_failing": acc.cand_flagged,
+        "texts_generated_with_known_construct": acc.flagged_generated, "texts_driven_with_known_construct": acc.flagged_driven,
+        "known_construct_texts_failing": acc.cand_flagged,
         "known_construct_texts_passing": acc.flagged_ok,
         "answers_differing_from_expectation_without_known_construct": acc.cand_unflagged,
         "rows_judged_by_tlc": len(acc.val_rows), "rows_rejected_by_tlc": len(rejected),
